@@ -92,6 +92,7 @@ func cmdShard(args []string) {
 	case "filter":
 		opts.GetAll = true
 		opts.FilterEvery = *panelEvery
+		opts.Wide = 3000
 	case "rank":
 		opts.Rank = *rank
 	case "cache":
